@@ -66,6 +66,7 @@ type hpScenario struct {
 	Name           string      `json:"name"`
 	Requests       []hpRequest `json:"requests"`
 	OneChunk       bool        `json:"one_chunk,omitempty"` // all requests delivered in one read
+	Sequential     bool        `json:"sequential,omitempty"` // request i+1 is sent only after the response to request i arrived
 	RouteTimeoutMs int         `json:"route_timeout_ms,omitempty"`
 	TryTimeoutMs   int         `json:"try_timeout_ms,omitempty"`
 	RetryOn        bool        `json:"retry_on,omitempty"`
@@ -394,6 +395,9 @@ func hpBody(sc *hpScenario, obs *hpObs) {
 	}
 	vfake.Reset()
 	vfake.OnCreate = func(c *vfake.Conn) { h.onUpstreamConn(c) }
+	if hpRunHook != nil {
+		hpRunHook(h)
+	}
 
 	// fresh singletons
 	if cm := cluster.GetClusterMngAdapterInstance().ClusterManager; cm != nil {
@@ -452,6 +456,13 @@ func hpBody(sc *hpScenario, obs *hpObs) {
 				continue
 			}
 			down.InjectRead(b)
+			if sc.Sequential && !r.Oneway {
+				want := i + 1
+				vrt.WaitUntil("client: response to previous request", func() bool {
+					fr, _, _ := hpParse(down.Written())
+					return len(fr) >= want || down.IsClosed()
+				})
+			}
 		}
 		if sc.OneChunk {
 			down.InjectRead(all)
@@ -611,6 +622,7 @@ func hpInstallFilters(sc *hpScenario, h *hpRun) {
 }
 
 var hpFilterHook func(sc *hpScenario, h *hpRun)
+var hpRunHook func(h *hpRun)
 var hpRouterHook func(sc *hpScenario, rc *v2.RouterConfiguration)
 
 // hpDeterminism replays the default schedule of a scenario twice (and one
@@ -684,3 +696,48 @@ func hpStuckSignature(ds *downStream) string {
 		types.PhaseName[ds.phase], b(ds.upstreamResponseReceived), b(ds.upstreamReset), b(ds.downstreamReset), b(ds.downstreamCleaned),
 		ds.directResponse, ds.downstreamResponseStarted, ds.upstreamProcessDone.Load(), setupRetry, ds.perRetryTimer != nil, ds.responseTimer != nil)
 }
+
+// hpScenarioName is the systematic name of a scenario (used in finding keys and samples).
+func hpScenarioName(sc *hpScenario) string {
+	var parts []string
+	for _, r := range sc.Requests {
+		k := "twoway"
+		if r.Oneway {
+			k = "oneway"
+		}
+		if r.Body {
+			k += "+body"
+		}
+		parts = append(parts, k+"["+strings.Join(r.Script, ",")+"]")
+	}
+	s := strings.Join(parts, "|")
+	if sc.RetryOn {
+		s += fmt.Sprintf(" retry_on(%d)", sc.NumRetries)
+	}
+	if sc.TryTimeoutMs > 0 {
+		s += " try-timeout"
+	}
+	if sc.DownDisconnect {
+		s += " down-disconnect"
+	}
+	if len(sc.FailHosts) > 0 {
+		s += fmt.Sprintf(" connect-fail-hosts=%v/%d", sc.FailHosts, sc.Hosts)
+	}
+	if len(sc.TimeoutHosts) > 0 {
+		s += fmt.Sprintf(" connect-timeout-hosts=%v/%d", sc.TimeoutHosts, sc.Hosts)
+	}
+	if sc.NoRoute {
+		s += " no-route"
+	}
+	if sc.NoHosts {
+		s += " no-hosts"
+	}
+	if sc.AllUnhealthy {
+		s += " all-unhealthy"
+	}
+	if sc.MaxRequests > 0 {
+		s += fmt.Sprintf(" max_requests=%d", sc.MaxRequests)
+	}
+	return s
+}
+
